@@ -36,6 +36,12 @@ def container_of(w, label):
 
 
 def unsavable_aux(w, snap):
+    """Does the IR hold a table whose current value cannot be encoded (assigned on purpose)?"""
+    nodes = snap["nodes"]
+    for cl in [snap["ir"]] + list(nodes[snap["ir"]].a["modules"]):
+        for t in nodes[cl].a["aux"].values():
+            if t["state"] == "bad":
+                return True
     return False
 
 
@@ -47,6 +53,8 @@ def check_saved_aux(w, msg, snap):
     from .persist import aux_entries
 
     nodes = snap["nodes"]
+    if unsavable_aux(w, snap):
+        w.violate(("C07", "C08", "C14"), "aux:unencodable_saved", "save succeeded although a table holds a value outside its type's range")
     seen = set()
     for cl, name, ad in aux_entries(msg, snap):
         seen.add((cl, name))
@@ -131,6 +139,17 @@ def note_saved(w, msg, snap):
         tbl["type0"] = tbl["type"]
         tbl["state"] = "untouched"
         tbl["home"] = snap["ir"]
+        tbl.pop("pre_cv", None)
+        tbl.pop("decoded_lazily", None)
+    # On the LIVE side, saving a table whose type name was changed while its bytes were still
+    # undecoded makes gtirb decode it now (AuxData._to_protobuf reads .data): UUIDs are resolved
+    # against the IR as it is at this save, not at a later read.
+    live = w.m.nodes
+    for cl in [snap["ir"]] + list(nodes[snap["ir"]].a["modules"]):
+        if cl in live:
+            for t in live[cl].a["aux"].values():
+                if t["state"] == "retyped":
+                    t["state"] = "retyped_read"
 
 
 # ---------------------------------------------------------------------------
@@ -244,7 +263,8 @@ class AuxRead(AuxBase):
     name = "aux_read"
 
     def ready(self, w, op):
-        return self._tbl(w, op) is not None
+        tbl = self._tbl(w, op)
+        return tbl is not None and tbl["state"] != "bad"
 
     def run(self, w, op):
         ad = w.objs[op["c"]].aux_data.get(op["name"])
@@ -281,9 +301,9 @@ class AuxMutate(AuxBase):
         if tbl is None or tbl["cv"] is None:
             return False
         t = R.parse_type(tbl["type"])
-        if tbl["state"] in ("retyped", "retyped_read") or R.has_unknown(t):
+        if tbl["state"] in ("retyped", "retyped_read", "bad") or R.has_unknown(t):
             return False
-        return t[0] in ("sequence", "set", "mapping")
+        return auxm.has_mutable(t)
 
     def run(self, w, op):
         ad = w.objs[op["c"]].aux_data.get(op["name"])
@@ -330,7 +350,7 @@ class AuxMutateRef(AuxBase):
         t = R.parse_type(tbl["type"])
         if tbl["state"] not in ("read", "mutated") or R.has_unknown(t):
             return False
-        return t[0] in ("sequence", "set", "mapping")
+        return auxm.has_mutable(t)
 
     def run(self, w, op):
         tbl = self._tbl(w, op)
@@ -390,6 +410,44 @@ class AuxAssign(AuxBase):
         return Exp("ok", value=None, owner=())
 
 
+@register
+class AuxAssignBad(AuxBase):
+    """{"op":"aux_assign_bad","c":container,"name":N,"k":i}: assign a value that is NOT of the
+    table's type in its LAST leaf (a sequence whose last element is out of range): encoding
+    emits some bytes and then fails. Until a proper value is assigned, saving must fail."""
+
+    name = "aux_assign_bad"
+
+    def ready(self, w, op):
+        tbl = self._tbl(w, op)
+        if tbl is None or tbl["cv"] is None or tbl["state"] == "retyped":
+            return False
+        t = R.parse_type(tbl["type"])
+        return t[0] == "sequence" and t[1][0][0] in R.INTS and not R.has_unknown(t)
+
+    def run(self, w, op):
+        tbl = self._tbl(w, op)
+        t = R.parse_type(tbl["type"])
+        size, signed = R.INTS[t[1][0][0]]
+        bad = (1 << (8 * size)) + 5 if not signed or op.get("k", 0) % 2 else -(1 << (8 * size)) - 5
+        ad = w.objs[op["c"]].aux_data.get(op["name"])
+
+        def fn():
+            ad.data = [1, 2, 3, bad]
+
+        out = capture(fn)
+        out.value = None
+        return out
+
+    def model(self, w, op, out):
+        tbl = self._tbl(w, op)
+        tbl["state"] = "bad"
+        tbl["cv"] = [1, 2, 3]
+        w.aux_refs.pop((op["c"], op["name"]), None)
+        w.counters["fault:unencodable_value_assigned"] += 1
+        return Exp("ok", value=None, owner=())
+
+
 def retype_value(cv, t0, t1):
     """Value under the new type name, or None if the retyping is not one of
     the compatible ones the workload uses (integer leaves widened at any
@@ -434,7 +492,7 @@ class AuxRetype(AuxBase):
 
     def ready(self, w, op):
         tbl = self._tbl(w, op)
-        if tbl is None or tbl["cv"] is None:
+        if tbl is None or tbl["cv"] is None or tbl["state"] == "bad":
             return False
         t0, t1 = R.parse_type(tbl["type"]), R.parse_type(op["type"])
         if t0[0] == "sequence" and t1[0] == "set" and (auxm.unhashable_position(t1) or _f32_nan(t1) or _has_double(t1)):
@@ -519,8 +577,27 @@ def gen_aux(w, r, allow_unknown=False):
     if not tables or x < 0.3:
         if len(tables) >= w.cfg.get("max_aux", 6):
             return None
-        t = auxm.gen_type(r, depth=w.cfg.get("aux_depth", 3), allow_variant=w.cfg.get("aux_variant", True), allow_unordered=w.cfg.get("aux_unordered", True))
         name = "t%d" % r.randrange(0, 8)
+        y = r.random()
+        allt = [(c2, n2) for c2 in cs for n2, t2 in m.nodes[c2].a["aux"].items() if t2["cv"] is not None and not R.has_unknown(R.parse_type(t2["type"])) and t2["state"] != "bad"]
+        if y < 0.2 and allt:
+            # a second table with the same type and value (byte-identical once saved)
+            c2, n2 = allt[r.randrange(len(allt))]
+            t2 = m.nodes[c2].a["aux"][n2]
+            import copy
+
+            return {"op": "aux_new", "c": c, "name": name, "type": t2["type"], "cv": copy.deepcopy(t2["cv"]), "node_objects": True}
+        if y < 0.35 and w.cfg.get("aux_unordered", True):
+            # tables that are mostly node references, drawn from a small pool of nodes
+            tn = r.choice(["sequence<UUID>", "set<UUID>", "mapping<UUID,uint64_t>", "mapping<Offset,string>", "sequence<Offset>", "mapping<string,set<UUID>>", "tuple<UUID,sequence<UUID>>"])
+            t = R.parse_type(tn)
+            return {"op": "aux_new", "c": c, "name": name, "type": tn, "cv": auxm.gen_value(w, r, t), "node_objects": r.random() < 0.7}
+        if y < 0.45:
+            # an integer sequence (can be widened, extended, or spoilt with an out-of-range element)
+            tn = "sequence<%s>" % r.choice(["uint8_t", "int8_t", "uint16_t", "int32_t", "uint64_t"])
+            t = R.parse_type(tn)
+            return {"op": "aux_new", "c": c, "name": name, "type": tn, "cv": auxm.gen_value(w, r, t)}
+        t = auxm.gen_type(r, depth=w.cfg.get("aux_depth", 3), allow_variant=w.cfg.get("aux_variant", True), allow_unordered=w.cfg.get("aux_unordered", True))
         return {"op": "aux_new", "c": c, "name": name, "type": R.type_str(t), "cv": auxm.gen_value(w, r, t), "node_objects": r.random() < 0.7}
     name = sorted(tables)[r.randrange(len(tables))]
     tbl = tables[name]
@@ -534,6 +611,8 @@ def gen_aux(w, r, allow_unknown=False):
         t = R.parse_type(tbl["type"])
         if R.has_unknown(t):
             return None
+        if r.random() < w.cfg.get("p_bad_aux", 0.0):
+            return {"op": "aux_assign_bad", "c": c, "name": name, "k": r.randrange(2)}
         return {"op": "aux_assign", "c": c, "name": name, "cv": auxm.gen_value(w, r, t)}
     if x < 0.95:
         t = R.parse_type(tbl["type"])
